@@ -119,7 +119,10 @@ def new_run_for(prop, rng, tier):
            'w': _weights(prop, rng), 'mcfg': mcfg,
            'p_yaml': rng.choice([0.1, 0.25]),
            'storage_faults': prop == 'C10' and rng.random() < 0.3,
-           'p_hand': rng.choice([0.3, 0.6, 0.9])}
+           'p_hand': rng.choice([0.3, 0.6, 0.9]), 'max_hand_nodes': 14}
+    if tier == 'thorough' and src != 'corelang' and rng.random() < 0.5:
+        cfg['steps'] = rng.randint(40, 110)
+        cfg['max_hand_nodes'] = rng.choice([14, 24, 40])
     return cfg, {'spec': spec, 'source': src, 'model_ops': model_ops}
 
 
@@ -488,7 +491,8 @@ class GraphWorld(BaseWorld):
 
     def gen_add_node(self, rng, gi):
         s = self.slots[gi]
-        if len(s.ref.order) >= 14 and s.kind == 'hand' and rng.random() < 0.8:
+        if len(s.ref.order) >= self.cfg.get('max_hand_nodes', 14) and s.kind == 'hand' \
+                and rng.random() < 0.8:
             return None
         if len(s.ref.order) >= 60:
             return None
